@@ -182,6 +182,18 @@ add('C24', 'exploration',
     'against a twin in a continuation that includes a push.',
     'Stream advertisements after only an informational response, on reserved streams, and ALTSVC received after only a 1xx are undetermined.')
 
+add('C10', 'exploration',
+    'runtime monitoring: shadow RFC 7540 5.1/5.1.2 stream-count model driven from the wire; accept/refuse oracle at the limit and counter comparison after every step',
+    'Random histories for both roles of stream openings, END_STREAM in both directions, resets by either side, pushes and their '
+    'activation, and MAX_CONCURRENT_STREAMS changes on both sides (0,1,2,3,5,100; up to three local changes in flight, each ACK '
+    'delivered at an arbitrary later step). Every opening by the endpoint must succeed below the peer limit as last delivered and '
+    'raise TooManyStreamsError without output at it; every opening by the peer must be accepted below the acknowledged local limit '
+    'and refused (connection error or RST_STREAM) at it; open_outbound_streams / open_inbound_streams must equal the model counts '
+    '(polled after every step in half of the histories, only at the end in the others, because reading them triggers cleanup). '
+    'Held/violated on those executions only.',
+    'Only valid traffic besides the over-limit opening itself; each SETTINGS frame of the endpoint carries only MAX_CONCURRENT_STREAMS, '
+    'so ACK-to-frame matching (C11) is unambiguous; the two push-activation mechanisms are known findings.')
+
 add('C25', 'exploration',
     'runtime monitoring: setting-by-setting view comparison + behavioural probes on both real endpoints after an h2c upgrade, over an exhaustive settings grid',
     'Grid of 1728 client settings combinations (HEADER_TABLE_SIZE, ENABLE_PUSH, MAX_CONCURRENT_STREAMS, INITIAL_WINDOW_SIZE, '
